@@ -41,7 +41,7 @@ class Calls:
         del self.log[:]
 
 
-def make_model(case, calls, summary_tag=0, dist_tag=0):
+def make_model(case, calls, summary_tag=0, dist_tag=0, narrow=False):
     m = elfi.ElfiModel(name='pm')
     t1 = elfi.Prior('uniform', 0, 1, model=m, name='t1')
     params = [t1]
@@ -72,7 +72,7 @@ def make_model(case, calls, summary_tag=0, dist_tag=0):
             tot = tot + np.abs(a - o).reshape(len(a), -1).sum(axis=1)
         return tot + dist_tag
 
-    D = elfi.Discrepancy(dist, *sums, model=m, name='d')
+    D = elfi.Discrepancy(dist, *(sums[-1:] if narrow else sums), model=m, name='d')      # narrow: only the LAST summary is used
     D.uses_meta = True
     return m
 
@@ -260,6 +260,51 @@ def one(ctx, case, tmp, reqs, meta):
         pool.delete()                     # a plain OutputPool would be pickled into ./pools by close()
 
 
+def narrow_scenario(ctx, rng):
+    """a pool filled for d = dist(S0, S1) is reused for a run whose target needs only S1: the store of S0 belongs to a node OUTSIDE
+    the net of that run (and may come anywhere in the pool's store order)"""
+    import itertools
+    case = dict(n_params=rng.randint(1, 2), hier=rng.random() < .5, n_sum=2, b=rng.randint(1, 4), seed=rng.randrange(2**31),
+                stores=list(rng.choice(list(itertools.permutations(['S0', 'S1', 'sim'] + (['d'] if rng.random() < .5 else []))))),
+                fill=rng.randint(1, 3), scenario='narrow-target')
+    ctx.case(case, True)
+    ctx.count('narrow.first_store', case['stores'][0])
+    calls = Calls()
+    m = make_model(case, calls)
+    pool = elfi.OutputPool(list(case['stores']))
+    nb = case['fill']
+    try:
+        run_rejection(m, case, nb, pool=pool)
+        if 'd' in pool.stores:
+            pool.remove_store('d')                       # the distance changes: its stored values are dropped
+        m2 = make_model(case, calls, 0, 1, narrow=True)
+        ref = make_model(case, Calls(), 0, 1, narrow=True)
+        for nb2 in (nb, nb + 2):
+            calls.reset()
+            rej = elfi.Rejection(m2['d'], batch_size=case['b'], seed=case['seed'], pool=pool, output_names=['S1'])
+            res = with_timeout(60, lambda: rej.sample(1, n_sim=nb2 * case['b'], bar=False))
+            rej0 = elfi.Rejection(ref['d'], batch_size=case['b'], seed=case['seed'], output_names=['S1'])
+            res0 = with_timeout(60, lambda: rej0.sample(1, n_sim=nb2 * case['b'], bar=False))
+            where = dict(case, batches=nb2)
+            if {k: np.asarray(v).tobytes() for k, v in res.outputs.items()} != {k: np.asarray(v).tobytes() for k, v in res0.outputs.items()}:
+                ctx.fail_input(where, 'results with a pool that also holds a store of a node outside this run differ from the pool-free run')
+                return
+            again = [(n, bi) for n, bi in calls.log if n in ('sim', 'S1') and bi < nb]
+            if again or any(n == 'S0' for n, bi in calls.log):
+                ctx.fail_input(where, 'stored operations were invoked again for batches the pool holds (or an unused one ran): %s' % sorted(set(calls.log))[:6])
+                return
+            for n in ('S1', 'sim'):
+                held = [i for i in range(nb2 + 2) if i in pool.stores[n]]
+                if held != list(range(nb2)):
+                    ctx.fail_input(where, 'store %s holds batches %s after a run that consumed batches 0..%d' % (n, held, nb2 - 1))
+                    return
+            nb = nb2
+    except Timeout:
+        ctx.fail_input(case, 'run with pool did not return')
+    finally:
+        pool.delete()
+
+
 def process(ctx, n):
     tmp = tempfile.mkdtemp(prefix='c05-')
     reqs, meta = [], []
@@ -284,6 +329,9 @@ def process(ctx, n):
 
 
 def run(ctx):
+    for _ in range(ctx.budget(12, 100)):
+        if not ctx.enough():
+            narrow_scenario(ctx, ctx.rng)
     process(ctx, ctx.budget(140, 800))
 
 
